@@ -4,6 +4,7 @@ import (
 	"fmt"
 	"math/big"
 	"strconv"
+	"strings"
 
 	"go.lstv.dev/util/size"
 
@@ -125,30 +126,46 @@ func c13Case(w *rt.W, s uint64) {
 	plain := digits + wu
 	pretty := ref.Group3(digits, " ") + " " + wu
 	html := ref.Group3(digits, "&nbsp;") + "&nbsp;" + wu
-	for _, f := range []struct {
-		flag size.Format
-		want string
+	// the rendering calls run in an order that depends on the size, so that a result that
+	// depends on which rendering was asked for just before (a memo, a shared scratch) is seen
+	type rcall struct {
 		name string
-	}{{0, plain, "0"}, {size.FormatPretty, pretty, "FormatPretty"}, {size.FormatPretty | size.FormatHTML, html, "FormatPretty|FormatHTML"}, {size.FormatHTML, plain, "FormatHTML"}} {
-		o, err := size.DefaultFormatter(nil, sz, f.flag)
-		w.Eval(1)
-		if err != nil || string(o) != f.want {
-			fail("formatter-"+f.name, "DefaultFormatter("+f.name+")", string(o), f.want)
+		want string
+		call func() string
+	}
+	fmtCall := func(flag size.Format) func() string {
+		return func() string {
+			o, err := size.DefaultFormatter(nil, sz, flag)
+			if err != nil {
+				return "error: " + err.Error()
+			}
+			return string(o)
 		}
 	}
-	if g := sz.String(); g != plain {
-		fail("string", "String", g, plain)
+	calls := []rcall{
+		{"DefaultFormatter(0)", plain, fmtCall(0)},
+		{"DefaultFormatter(FormatPretty)", pretty, fmtCall(size.FormatPretty)},
+		{"DefaultFormatter(FormatPretty|FormatHTML)", html, fmtCall(size.FormatPretty | size.FormatHTML)},
+		{"DefaultFormatter(FormatHTML)", plain, fmtCall(size.FormatHTML)},
+		{"String", plain, func() string { return sz.String() }},
+		{"PrettyString", pretty, func() string { return sz.PrettyString() }},
+		{"PrettyHTML", html, func() string { return string(sz.PrettyHTML()) }},
+		{"BytesString", strconv.FormatUint(s, 10), func() string { return sz.BytesString() }},
+		{"MarshalText-or-String", plain, func() string { return sz.String() }},
+		{"PrettyString-again", pretty, func() string { return sz.PrettyString() }},
 	}
-	if g := sz.PrettyString(); g != pretty {
-		fail("prettystring", "PrettyString", g, pretty)
+	h := rt.HashU(s, 13)
+	for i := len(calls) - 1; i > 0; i-- {
+		j := int(h % uint64(i+1))
+		h = h*6364136223846793005 + 1442695040888963407
+		calls[i], calls[j] = calls[j], calls[i]
 	}
-	if g := string(sz.PrettyHTML()); g != html {
-		fail("prettyhtml", "PrettyHTML", g, html)
+	for _, cl := range calls {
+		w.Eval(1)
+		if g := cl.call(); g != cl.want {
+			fail("rendering-"+strings.SplitN(cl.name, "-", 2)[0], cl.name, g, cl.want)
+		}
 	}
-	if g := sz.BytesString(); g != strconv.FormatUint(s, 10) {
-		fail("bytesstring", "BytesString", g, strconv.FormatUint(s, 10))
-	}
-	w.Eval(4)
 	if len(digits) >= 4 || (wu != "B" && wu != "KiB") {
 		w.NTHash(s)
 	}
@@ -201,6 +218,27 @@ func runC13(c *rt.Ctx) {
 		}
 		sizeValueSet(w.Rng, n, func(s uint64) { c13Case(w, s) })
 	})
+	// renderings must not depend on the marshalling switches, the parser rules or the limits
+	cfgN := 0
+	for sw := 0; sw < 8; sw++ {
+		for _, rule := range []size.Rule{0, size.RuleDisableUnit, size.DefaultRule, 15} {
+			restoreSw := c04Apply(sw)
+			restoreCfg := c12Apply(c12Cfg{rule: rule, maxKeys: sw % 3, limit: []int{128, 0, 1}[sw%3]})
+			c.Parallel(fmt.Sprintf("unrelated-config-%d-%d", sw, rule), 0, func(w *rt.W) {
+				if w.Shard == 0 {
+					sizeValueSet(w.Rng, 2000, func(s uint64) { c13Case(w, s) })
+				}
+				for s := uint64(w.Shard); s < 1<<12; s += uint64(w.NShards) {
+					c13Case(w, s)
+				}
+				w.ClassN("under-unrelated-configuration", 1)
+			})
+			restoreCfg()
+			restoreSw()
+			cfgN++
+		}
+	}
+	c.Require("under-unrelated-configuration", int64(cfgN))
 	for _, u := range binUnits {
 		c.Require("unit-"+u, 64)
 	}
